@@ -15,6 +15,18 @@ import (
 // Finish runs phase 2: translates all deferred formulas.
 func (t *FnTrans) Finish() {
 	t.phase2 = true
+	// pass A: translate every clause once only to collect the skolem constants
+	// (goal-side forall, hypothesis-side exists) as instantiation candidates;
+	// skolem names are stable, so pass B below sees the complete candidate set.
+	for _, o := range t.obls {
+		_, _ = t.Formula(o.F, true)
+	}
+	for i := 0; i < len(t.assumps); i++ {
+		if t.assumps[i].F.Lazy == nil {
+			_, _ = t.Formula(t.assumps[i].F, false)
+		}
+	}
+	t.abstractions = dedupe(t.abstractions)
 	// goals first: their skolem constants become instantiation candidates
 	for _, o := range t.obls {
 		g, err := t.Formula(o.F, true)
@@ -225,4 +237,16 @@ func hashString(s string) uint64 {
 		h *= 1099511628211
 	}
 	return h
+}
+
+func dedupe(a []string) []string {
+	seen := map[string]bool{}
+	var r []string
+	for _, x := range a {
+		if !seen[x] {
+			seen[x] = true
+			r = append(r, x)
+		}
+	}
+	return r
 }
